@@ -993,6 +993,17 @@ class Evaluator:
             return self._cap_idiom(self.to_str(a, depth) + self.to_str(b, depth))
         if isinstance(a, TList) and isinstance(b, TList):
             return TList(a.items + b.items)
+
+        def as_items(x):
+            # a list-typed symbolic value spliced into a literal list: every element of it, in order
+            if isinstance(x, TList):
+                return x.items
+            if isinstance(x, Sym) and strip_opt(x.typ)[0] == 'list':
+                var = self.new_sym('item', TypeEnv.elem_type(strip_opt(x.typ)))
+                return [RepL(Src(x, var, []), [TStr([Hole(var)])])]
+            return None
+        if (isinstance(a, TList) or isinstance(b, TList)) and as_items(a) is not None and as_items(b) is not None:
+            return TList(as_items(a) + as_items(b))
         if isinstance(a, TBlock):
             return TBlock(a.items + self.block_items(b, depth))
         # NamespaceIds + NamespaceIds and other package __add__
